@@ -140,7 +140,7 @@ mut("c05-counter-index-zero", "C05", B, """            let index = if self.count
 A = "src/alloc.rs"
 mut("c09-zeroed-forwards-alloc", "C09", A, "self.alloc.alloc_zeroed(layout)", "self.alloc.alloc(layout)")
 mut("c09-dealloc-swallowed-zero", "C09", A, "        self.alloc.dealloc(ptr, layout)", "        if layout.size() != 0 { self.alloc.dealloc(ptr, layout) }")
-mut("c09-alloc-allocates", "C09", A, "        self.alloc.alloc(layout)", "        if layout.size() == 4096 { drop(Vec::<u8>::with_capacity(1)); } self.alloc.alloc(layout)")
+mut("c09-alloc-allocates", "C09", A, "        self.alloc.alloc(layout)", "        if layout.size() == 4096 { drop(std::hint::black_box(Vec::<u8>::with_capacity(1))); } self.alloc.alloc(layout)")
 mut("c10-max-size-not-on-grow", "C10", A, """        self.current_size += diff as ThreadAllocCountSigned;
         self.max_size = self.max_size.max(self.current_size);""", """        self.current_size += diff as ThreadAllocCountSigned;""")
 mut("c10-count-not-decremented", "C10", A, """        self.current_count -= 1;
